@@ -114,7 +114,13 @@ fn is_constant(expr: &Expr) -> bool {
         Expr::Object(ObjectLit { props, .. }) => props.iter().all(|prop| {
             if let PropOrSpread::Prop(prop) = prop {
                 match &**prop {
-                    Prop::KeyValue(KeyValueProp { value, .. }) => is_constant(value),
+                    Prop::KeyValue(KeyValueProp { key, value }) => {
+                        let is_key_constant = match key {
+                            PropName::Computed(ComputedPropName { expr, .. }) => is_constant(expr),
+                            _ => true,
+                        };
+                        is_key_constant && is_constant(value)
+                    }
                     Prop::Shorthand(ident) => &ident.sym == "undefined",
                     _ => false,
                 }
